@@ -909,9 +909,19 @@ func runAdvEnf(w *bufio.Writer, seed uint64, n int, args []string) {
 					fmt.Sprintf("%s wire=%x record=%x scid=%x", desc, iscid, rec.InitialSourceConnectionID, vc.SrcConnID))
 			}
 
-			// what the model gets as the parameter list: spec-driven: the spec's extension after
-			// construction (ID(), Value()); plain: the entries read from the wire
-			var plist []string
+			// what the model gets as the parameter list: spec-driven: the SPEC's extension (ID(),
+			// Value()), which a dial leaves as the caller wrote it (the connection works on its
+			// own copy: suppression, per-dial order and the source connection ID go there), plus
+			// the suppression list, the randomize flag and the source connection ID, from which
+			// the model derives what has to be on the wire; plain: the entries read from the wire
+			var plist, suppress []string
+			randomize := false
+			if sp := specOf(vc); sp != nil && specDriven {
+				randomize = sp.RandomizeTransportParameters
+				for _, id := range sp.SuppressTransportParameters {
+					suppress = append(suppress, u.ZU(id))
+				}
+			}
 			if ids, vals, ok := quic.VerifAdvEnfSpecParams(specOf(vc)); ok && specDriven {
 				for j := range ids {
 					plist = append(plist, u.Pair(u.ZU(ids[j]), u.Hex(vals[j])))
@@ -956,7 +966,7 @@ func runAdvEnf(w *bufio.Writer, seed uint64, n int, args []string) {
 			if sawErr || specDriven && !cfg.isDefault() {
 				nt = 1
 			}
-			fmt.Fprintf(w, "CASE %d %s\n", nt, u.App("AdvCase", u.B(specDriven), u.List(plist), cfg.coq(), u.Z(int64(peer.MaxIdleTimeout)),
+			fmt.Fprintf(w, "CASE %d %s\n", nt, u.App("AdvCase", u.B(specDriven), u.List(plist), u.List(suppress), u.B(randomize), u.Hex(vc.SrcConnID), cfg.coq(), u.Z(int64(peer.MaxIdleTimeout)),
 				u.Hex(ext), ov, u.ZList(adv[:]), u.ZList(recVals[:]), enfList, u.Z(enf.IdleTimeout), u.List(obs)))
 			if i < 3 || i == len(clients) {
 				fmt.Fprintf(w, "SAMPLE\t%s adv=%v enforced=%+v probes=%v\n", desc, adv, enf, evStrs)
